@@ -35,6 +35,15 @@ CLAIMS = {
         "result in the orbit, constancy on orbits off the boundary) are proved for the exact-centre model; that the "
         "implementation, whose sector centres are numeric, lands inside the sector is measured by the correspondence and the "
         "property predicates on the implementation, not proved."),
+ "C08": dict(category="proof", design_ref="DESIGN.md section 5 C08",
+   technique="Lean 4: colour = F(projection) so symmetry invariance is a corollary of the C07 sector theorems; range of hsl_to_hsv/HSV->RGB proved over the reals; AST-translated hsl_to_hsv proved equal to the model; differential check",
+   text="Symmetry clause: the colour is a function of the direction's projection into the Laue group's sector, so for every "
+        "certified sector all equivalent directions off the boundary get the same colour (theorem colour_invariant, from "
+        "C07); the Laue group contains the inversion (from the C03 tables). Range clause: for every hue and polar "
+        "coordinate in [0,1] the key's colour is a length-3 list in [0,1] with no division by zero (theorems over the "
+        "reals about the model, to which the AST-translated hsl_to_hsv is proved equal). The cubic-key corner/centre colours "
+        "depend on a 1000-step numeric azimuth table and are measured only. Invariance on the implementation is checked for "
+        "all 38 groups; the three Laue sectors that are not fundamental domains are known findings."),
 }
 REASONS = {}
 checks = []
